@@ -216,14 +216,16 @@ impl Check for C01 {
     }
 
     fn rule(&self) -> String {
-        "Episodes of 1-4 datagrams; each datagram is 1-4 stacked packets from the real builders or the foreign RFC encoder, then 0-4 composed channel faults (truncate, extend, coalesce, bit flip, byte set, header field, padding trailer, inner length byte, reframe, misroute) drawn from the episode's swarm configuration; the receiver then runs Compound/Packet/8 typed parsers/ReportBlock/5 FCI parsers (direct, on seeded sub-slices, and via parse_fci) and a tape-driven read-out history over every public accessor, conversion and iterator; plus, in the first 4096 episodes, length-field sweep frames (single packets of every type and compounds of up to 256 KiB) for the ~70 (quick) / ~800 (thorough) field values arithmetic is most likely to get wrong. evaluations = deliveries. A delivery is non-trivial when at least one fault fired (changed the bytes) and at least one entry point accepted the damaged bytes (the receiver went past validation into accessor code); distinct = distinct (set of accepting entry points, ordered fault-kind sequence, length in words, verdict).".into()
+        "Episodes of 1-4 datagrams; each datagram is 1-4 stacked packets from the real builders or the foreign RFC encoder, then 0-4 composed channel faults (truncate, extend, coalesce, bit flip, byte set, header field, padding trailer, inner length byte, reframe, misroute) drawn from the episode's swarm configuration; the receiver then runs Compound/Packet/8 typed parsers/ReportBlock/5 FCI parsers (direct, on seeded sub-slices, and via parse_fci) and a tape-driven read-out history over every public accessor, conversion and iterator; plus once per run a chain of 2^20 header-only packets; plus, in the first 4096 episodes, length-field sweep frames (single packets of every type and compounds of up to 256 KiB) for the ~70 (quick) / ~800 (thorough) field values arithmetic is most likely to get wrong. evaluations = deliveries. A delivery is non-trivial when at least one fault fired (changed the bytes) and at least one entry point accepted the damaged bytes (the receiver went past validation into accessor code); distinct = distinct (set of accepting entry points, ordered fault-kind sequence, length in words, verdict).".into()
     }
     fn assumptions(&self) -> Vec<String> {
         vec![
             "sampling, not proof: a clean batch is evidence only".into(),
             "built with overflow-checks and debug-assertions on, so arithmetic overflow counts as a panic (as in a debug build of a user's application)".into(),
             "the two documented-panic calls (priv_prefix_len / priv_prefix) are issued on PRIV items only; From<RtcpParseError> for RtcpWriteError converts an error, not a returned value, and is not called".into(),
-            "a call that does not return within the watchdog limit is reported as a hang".into(),
+            "a call that does not return within the watchdog limit is reported as a hang; a call that takes the process down (stack overflow, abort) is located by bisection over the deterministic episodes and reported as a crash".into(),
+            "deliveries are received in place in one reusable buffer per worker, over the previous delivery; a reported case carries that previous content".into(),
+            "after the run, ./check delivers 2^20-packet chains to an unoptimised (dev profile) build as well, where recursion is not turned into a loop".into(),
         ]
     }
     fn components(&self) -> J {
